@@ -12,6 +12,7 @@ import (
 	"os"
 	"path/filepath"
 	"sort"
+	"strings"
 	"sync"
 	"testing"
 
@@ -167,10 +168,11 @@ func c10Torn(syncedA, syncedB, curA, curB []byte, blockSize int, stats *c10Stats
 }
 
 type c10Stats struct {
-	mu                                                     sync.Mutex
+	mu                                                    sync.Mutex
 	interruptions, states, resumes, tornDiffer, unitsSeen int64
-	secondInterruptions, pointsSeen                        int64
-	byPoint                                                map[string]int
+	secondInterruptions, pointsSeen                       int64
+	writeFaults, writeFaultsReported                      int64
+	byPoint                                               map[string]int
 }
 
 // c10CheckState: oracle clauses (a) and (b) on a durable state.
@@ -304,6 +306,17 @@ func c10Plans(r *vk.Run, bl int) (plans [][2][]int, resume [][2][]int) {
 	return
 }
 
+var c10KindName = map[pAction]string{pStop: "stop", pCrash: "crash", pFull0: "disk-full", pFullPart: "disk-full-after-5-bytes"}
+
+func c10Kind(name string) pAction {
+	for k, n := range c10KindName {
+		if n == name {
+			return k
+		}
+	}
+	return pStop
+}
+
 func TestVerifC10(t *testing.T) {
 	r := vk.Start("C10", "fault_enumeration")
 	stats := &c10Stats{byPoint: map[string]int{}}
@@ -315,7 +328,7 @@ func TestVerifC10(t *testing.T) {
 	runJob := func(j job, baseB []byte) {
 		cs := j.cs
 		ref := pReference(cs.Key, cs.BL)
-		kindName := map[pAction]string{pStop: "stop", pCrash: "crash"}[j.kind]
+		kindName := c10KindName[j.kind]
 		run := &pRun{dir: pNewDir(), key: cs.Key, bl: cs.BL, planA: cs.PlanA, planB: cs.PlanB}
 		fa, fb := pFull(cs.BL)
 		run.horizon = fa/2 + fb/4 + 8
@@ -331,6 +344,15 @@ func TestVerifC10(t *testing.T) {
 		defer os.RemoveAll(run.dir)
 		r.Eval(1)
 		cs.Point, cs.Kind = j.point, kindName
+		if (j.kind == pFull0 || j.kind == pFullPart) && run.faultAt > 0 {
+			stats.mu.Lock()
+			stats.writeFaults++
+			if err != nil {
+				stats.writeFaultsReported++
+			}
+			stats.mu.Unlock()
+			err = nil // a plot that fails because the disk is full may say so; what it leaves behind is judged below
+		}
 		if p != "" || err != nil || run.livelock {
 			r.Violation("C10/first-run-failed", fmt.Sprintf("interrupted first run: panic=%q err=%v livelock=%v (%+v)", p, err, run.livelock, cs), cs)
 			return
@@ -432,11 +454,7 @@ func TestVerifC10(t *testing.T) {
 	if p := r.ReplayPath(); p != "" {
 		var cs pCase
 		vk.LoadReplay(p, &cs)
-		kind := pStop
-		if cs.Kind == "crash" {
-			kind = pCrash
-		}
-		runJob(job{cs, cs.Point, kind}, baseOf(cs.Key, cs.BL))
+		runJob(job{cs, cs.Point, c10Kind(cs.Kind)}, baseOf(cs.Key, cs.BL))
 		r.Finish("replay")
 	}
 
@@ -461,6 +479,11 @@ func TestVerifC10(t *testing.T) {
 				for _, kind := range []pAction{pStop, pCrash} {
 					jobs = append(jobs, job{pCase{Key: 0, BL: bl, PlanA: pl[0], PlanB: pl[1]}, k, kind})
 				}
+				if strings.HasSuffix(probe.points[k-1], ".computed") {
+					for _, kind := range []pAction{pFull0, pFullPart} {
+						jobs = append(jobs, job{pCase{Key: 0, BL: bl, PlanA: pl[0], PlanB: pl[1]}, k, kind})
+					}
+				}
 			}
 		}
 	}
@@ -484,6 +507,8 @@ func TestVerifC10(t *testing.T) {
 		r.Set("unsynced_units_seen", stats.unitsSeen)
 		r.Set("resume_runs", stats.resumes)
 		r.Set("second_interruptions", stats.secondInterruptions)
+		r.Set("write_faults_injected", stats.writeFaults)
+		r.Set("write_faults_reported_by_plot", stats.writeFaultsReported)
 		var sites []string
 		for s := range stats.byPoint {
 			sites = append(sites, s)
